@@ -199,8 +199,25 @@ def F6b():
   return 'signature runner returns %s although OUTPUT is not covered by the recipe' % bad if bad else None
 
 
+def F12():
+  """Large-model serialisation with two zero-length constants in the model."""
+  from ai_edge_quantizer import model_modifier
+  content = open(M + 'single_fc.tflite', 'rb').read()
+  m = flatbuffer_utils.read_model_from_bytearray(bytearray(content))
+  for _ in range(2):
+    b = s.BufferT(); b.data = np.array([], dtype=np.uint8); b.offset = 0; b.size = 0
+    m.buffers.append(b)
+  datas = [None if b.data is None else bytes(np.asarray(b.data).tobytes()) for b in m.buffers]
+  mm = model_modifier.ModelModifier(content)
+  mm._constant_map = []
+  mm._process_constant_map(m)
+  out = mm._serialize_large_model(m)
+  bad = [i for i, (b, d) in enumerate(zip(m.buffers, datas)) if d and bytes(out[b.offset:b.offset + b.size]) != d]
+  return 'large-model form: buffers %s do not hold their constants at the recorded offsets' % bad if bad else None
+
+
 if __name__ == '__main__':
-  cases = sys.argv[1:] or ['F%d' % i for i in range(1, 11)] + ['F6b']
+  cases = sys.argv[1:] or ['F%d' % i for i in range(1, 11)] + ['F6b', 'F12']
   for c in cases:
     try:
       r = globals()[c]()
